@@ -23,7 +23,24 @@ int main(void)
 	uint8_t *in = malloc(1 << 24), *out = malloc(OUTCAP);
 	while (fgets(line, sizeof line, stdin)) {
 		unsigned kind, flags, mode; unsigned long long seed, memlimit; int off = 0;
+		char fstr[512]; lzma_filter sf[LZMA_FILTERS_MAX + 1]; int have_sf = 0;
+		unsigned long long mcomp = 0, muncomp = 0; unsigned mexact = 0, mdict = 0;
+		if (!strncmp(line, "decs ", 5)) {
+			// decs <filterstring> <mode> <seed> <hex>: raw decoder with the chain given as text
+			if (sscanf(line, "decs %511s %u %llu %n", fstr, &mode, &seed, &off) < 3) { printf("ERR\n"); fflush(stdout); continue; }
+			for (char *p = fstr; *p; p++) if (*p == '+') *p = ' ';
+			int epos = 0; if (lzma_str_to_filters(fstr, &epos, sf, LZMA_STR_ALL_FILTERS, NULL)) { printf("STRERR\n"); fflush(stdout); continue; }
+			have_sf = 1; kind = 8; flags = 0; memlimit = 0;
+			memmove(line + 0, line + off, strlen(line + off) + 1); off = 0; goto parsed;
+		}
+		if (!strncmp(line, "decm ", 5)) {
+			// decm <comp_size> <uncomp_size> <exact> <dict> <mode> <seed> <hex>: MicroLZMA
+			if (sscanf(line, "decm %llu %llu %u %u %u %llu %n", &mcomp, &muncomp, &mexact, &mdict, &mode, &seed, &off) < 6) { printf("ERR\n"); fflush(stdout); continue; }
+			kind = 9; flags = 0; memlimit = 0;
+			memmove(line + 0, line + off, strlen(line + off) + 1); off = 0; goto parsed;
+		}
 		if (sscanf(line, "dec %u %u %u %llu %llu %n", &kind, &flags, &mode, &seed, &memlimit, &off) < 5) { printf("ERR\n"); fflush(stdout); continue; }
+	parsed:;
 		char *h = line + off; size_t n = 0;
 		if (*h != '-') while (h[0] && h[1] && h[0] != '\n') { in[n++] = (uint8_t)(hexv(h[0]) << 4 | hexv(h[1])); h += 2; }
 		rng_s = seed * 2654435761u + 1;
@@ -46,6 +63,8 @@ int main(void)
 		case 3: r = lzma_alone_decoder(&s, memlimit); break;
 		case 4: r = lzma_lzip_decoder(&s, memlimit, flags); break;
 		case 5: r = lzma_raw_decoder(&s, f2); break;
+		case 8: r = lzma_raw_decoder(&s, sf); break;
+		case 9: r = lzma_microlzma_decoder(&s, mcomp, muncomp, mexact, mdict); break;
 		default: r = LZMA_PROG_ERROR;
 		}
 		if (r != LZMA_OK) { printf("%d 0 0 0 -\n", (int)r); fflush(stdout); lzma_end(&s); continue; }
@@ -86,6 +105,7 @@ int main(void)
 		if (!op) printf("-"); for (size_t i = 0; i < op; i++) printf("%02x", out[i]);
 		printf("\n"); fflush(stdout);
 		lzma_end(&s);
+		if (have_sf) lzma_filters_free(sf, NULL);
 	}
 	free(in); free(out);
 	return 0;
